@@ -90,6 +90,25 @@ def run(ctx, factor):
                 rep.case(case, b[0] == "ok" and bool(b[1]), tags=["sections=%d" % len(secs), "object-sections=%d" % len(names)])
             if rep.violations and factor > 1:
                 return
+        # executables linked at low and at very high addresses (no leading blanks before a 16-digit address)
+        for k in range(ctx.budget(4, 40) * factor):
+            o = objfuzz.assemble(ctx.scratch, [(".text", objfuzz.random_bytes(g, g.int(8, 60)))], name="tolink")
+            exe = objfuzz.link(ctx.scratch, o, [0xffffffff81000000, 0x401000, 0x7000000000000000, 0x10000000][k % 4], name="linked%d" % k)
+            if exe is None:
+                rep.dist["link-failed"] += 1
+                continue
+            doc = {"pattern": ["nop"]}
+            if g.chance(0.5):
+                doc["config"] = {"sections": [".text"]}
+            b = impl.run_op(ctx.scratch, doc, None, ret="stream", binary_path=exe)
+            rc, out, err = objfuzz.objdump(exe, (doc.get("config") or {}).get("sections", ()))
+            doc_text = {"pattern": ["nop"]}
+            t = impl.run_op(ctx.scratch, doc_text, out, ret="stream") if rc == 0 else None
+            case = {"object": "executable linked with ld -Ttext", "round": k, "rule": doc, "listing_head": out[:400] if rc == 0 else err[:200]}
+            if t is not None and b != t:
+                rep.violate("binary-route-differs-from-text-route", case, {"text_route_stream": t if t[0] != "ok" else t[1][:300]},
+                            {"binary_route_stream": b if b[0] != "ok" else b[1][:300]})
+            rep.case(case, b[0] == "ok" and bool(b[1]), tags=["linked-executable"])
         # the same PATH holding different objects one after the other: the disassembly must be of what is there now
         for k in range(ctx.budget(3, 30) * factor):
             secs = [(".text", objfuzz.random_bytes(g, g.int(8, 60)))]
